@@ -187,6 +187,10 @@ partial def toProg (sites : List (String × SiteSpec)) (fuel : Nat) (env : Env) 
       (match envGet env ((asStr (fieldD st "x" Json.null)).toOption.getD "") with
        | .exc t => .done (.out (.exc t))
        | .ret _ => toProg sites fuel env rest)
+    | some (.str "let") =>
+      -- the program binds a value to a name (values are texts here: aliasing between two uses is invisible to the model)
+      let x := (asStr (fieldD st "x" Json.null)).toOption.getD "_"
+      toProg sites fuel ((x, .ret (.atom (evalExpr env (fieldD st "e" Json.null)))) :: env) rest
     | some (.str "discard") => .discard (toProg sites fuel env rest)
     | some (.str "force") => .force (toProg sites fuel env rest)
     | some (.str "rec") =>
